@@ -65,7 +65,7 @@ def task_fork(digits, step_list):
     for met, a, b in step_list:
         sess = Session(npat=512)
         m, vc = sess.m, sess.vc
-        m.sweeping = False
+        m.sweeping = bool(int(__import__("os").environ.get("VERIF_MONO4_SWEEP", "0")))
         label = "%s %s:%s->%s" % (label0, met, a, b)
         vars_ = sess.assign_vars(4, only=[x for x in EFFECTIVE_VARS], fixed={met: [a]})
         # left-side macrovector from the specification's EQ definitions (EQ *definitions* only,
@@ -130,15 +130,15 @@ def tasks():
         for f in rng.sample(forks, 14):
             out.append(("task_fork", (f, [rng.choice(steps)])))
     else:
-        for f in forks:
-            out.append(("task_fork", (f, rng.sample(steps, 2))))
+        for f in rng.sample(forks, 56):
+            out.append(("task_fork", (f, [rng.choice(steps)])))
     return out
 
 
 def bounds():
     if C.tier() == "quick":
         return ["v4: the table lemma on all 270 lookup entries (complete); product execution only for a seeded sample of 14 (macrovector fork, metric step) cases of the 270 x 31 - one such run costs minutes in this engine, so complete v4 coverage by product execution is NOT claimed"]
-    return ["v4: the table lemma on all 270 lookup entries (complete); product execution for every macrovector fork with 2 seeded metric steps each (540 of 8370 cases): complete v4 coverage by product execution is NOT claimed"]
+    return ["v4: the table lemma on all 270 lookup entries (complete); product execution for a seeded sample of 56 (macrovector fork, metric step) cases of the 270 x 31: complete v4 coverage by product execution is NOT claimed"]
 
 
 def outside():
